@@ -15,7 +15,7 @@
    white space around `startxref`, the digits of the offset, `%%EOF`, trailing bytes.
    The OFFSETS are computed here: the in-use entries of the table receive the position of `n g obj`
    (relative to `%PDF-`), `startxref` the position of the table.
-   Which layouts are legal ([wf_layout]) is stated in Proofs/LoaderBytesWf.v (it speaks of spellings).
+   Which layouts are legal ([wf_layout]) is stated in Proofs/LoaderBytesMain.v (it speaks of spellings).
    Definitions only. *)
 From PV Require Export Base.Bytes Base.PdfObj Spec.XrefEnc.
 From PV Require Import Model.Obj Model.Loader Model.LoaderBytes.
